@@ -91,6 +91,7 @@ type lexer struct {
 	aliases   []*alias
 	stack     []int
 	arithExpr bool
+	scanned   bool
 	paren     int
 	heredoc   heredoc
 	word      ast.Word
@@ -896,7 +897,13 @@ Scan:
 	return tok
 }
 
-func (l *lexer) scanRawToken() int {
+func (l *lexer) scanRawToken() (tok int) {
+	defer func() {
+		if tok > 0 {
+			l.scanned = true
+		}
+	}()
+
 	for {
 		r, err := l.read()
 		if err != nil {
@@ -985,12 +992,39 @@ func (l *lexer) scanRawToken() int {
 			if l.lit(); len(l.word) != 0 {
 				return WORD
 			}
-			if !l.linebreak() {
+			if !l.scanned {
+				// leading comment lines
+				if !l.linebreak() {
+					return -1
+				}
+			} else if !l.skipComment() {
 				return -1
 			}
 		default:
 			l.b.WriteRune(r)
 		}
+	}
+}
+
+// skipComment reads a comment up to, but not including, the <newline>
+// which terminates it.
+func (l *lexer) skipComment() bool {
+	l.read()
+	l.mark(-1)
+	for {
+		r, err := l.read()
+		if err != nil {
+			l.comment()
+			return err == io.EOF
+		}
+
+		if r == '\n' {
+			l.unread()
+			l.comment()
+			l.mark(0)
+			return true
+		}
+		l.b.WriteRune(r)
 	}
 }
 
